@@ -206,6 +206,15 @@ class CSSUnknownRule(cssrule.CSSRule):
                     % self._valuestr(cssText)
                 )
 
+            if wellformed and self._tokenvalue(attoken) == '@charset':
+                # "@charset" not followed by exactly one space is no charset
+                # rule; kept as unknown rule it would be serialized as one
+                wellformed = False
+                self._log.error(
+                    'CSSUnknownRule: Invalid @charset rule: %r'
+                    % self._valuestr(cssText)
+                )
+
             # set all
             if wellformed:
                 self.atkeyword = self._tokenvalue(attoken)
